@@ -11,7 +11,7 @@ def dy(rng, lo=-5, hi=5, den=8):
     return Fraction(rng.randint(lo * den, hi * den), den)
 
 
-def make_graph_case(rng, max_e, max_loops, tries=60, catalogue_bias=0.5, names=None, mass_mode=None):
+def make_graph_case(rng, max_e, max_loops, tries=60, catalogue_bias=0.5, names=None, mass_mode=None, ext_modes=None):
     for _ in range(tries):
         if names:
             name = rng.choice(names); edges = list(gen.CATALOGUE[name])
@@ -26,7 +26,7 @@ def make_graph_case(rng, max_e, max_loops, tries=60, catalogue_bias=0.5, names=N
         if not (1 <= L <= max_loops):
             continue
         D = rng.randint(1, 6)
-        c = graphs.make_case(rng, edges, D, want=True, ext_mode=rng.choice(["all", "subset", "two", "all"]), tries=30, mass_mode=mass_mode)
+        c = graphs.make_case(rng, edges, D, want=True, ext_mode=rng.choice(ext_modes or ["all", "subset", "two", "all"]), tries=30, mass_mode=mass_mode)
         verts = set(v for e in edges for v in e)
         next_on_graph = len([v for v in c["ext"] if v in verts])
         if next_on_graph == 1 or any(v not in verts for v in c["ext"]):
@@ -155,12 +155,12 @@ def build_tables(cases):
 
 
 def generate(ctx, n_graphs, pts, max_e=6, max_loops=3, kinds=("uniform", "uniform", "corner", "edge1"), variant="random",
-             routings_per_graph=1, names=None, mass_mode=None, special=()):
+             routings_per_graph=1, names=None, mass_mode=None, special=(), ext_modes=None):
     """returns list of dict(case, routing, table, xs, req, kind); `special` = kinds of make_special_case to append"""
     rng = ctx.rng
     cases = []
     while len(cases) < n_graphs:
-        c = make_graph_case(rng, max_e, max_loops, names=names, mass_mode=mass_mode)
+        c = make_graph_case(rng, max_e, max_loops, names=names, mass_mode=mass_mode, ext_modes=ext_modes)
         if c is not None:
             cases.append(c)
     for kind in special:
